@@ -115,6 +115,36 @@ def _free_ids(body, acc=None):
     return acc
 
 
+def _structure(body):
+    """(kind, name, line) facts: non-const statics; stores to anything but A / locals."""
+    out = []
+    scopes = [set()]
+
+    def walk(stmts):
+        for st in stmts:
+            k = st[0]
+            if k == "decl":
+                _, nm, tclass, shape, init, quals, line = st
+                scopes[-1].add(nm)
+                if "static" in quals and "const" not in quals:
+                    out.append(("static-nonconst", nm, line))
+            elif k == "assign":
+                tgt = st[1][1]
+                if tgt != "A" and not any(tgt in sc for sc in scopes):
+                    out.append(("store-nonlocal", tgt, st[4]))
+            elif k == "for":
+                scopes.append({st[1]})
+                walk(st[4])
+                scopes.pop()
+            elif k == "block":
+                scopes.append(set())
+                walk(st[1])
+                scopes.pop()
+
+    walk(body)
+    return out
+
+
 @_wrap
 def purity(name, spec, res):
     tier = spec.get("tier", "quick")
@@ -133,6 +163,15 @@ def purity(name, spec, res):
         for p in kern.params:
             if p["name"] in ("w", "c", "coordinate_dofs", "entity_local_index", "quadrature_permutation") and not p["const"]:
                 res["violations"].append({"key": f"{name}:{kn}:param-not-const:{p['name']}", "what": f"input parameter {p['name']} is not pointer-to-const", "replay": None})
+        # structural monitors on the whole body (no execution needed; hold for every path)
+        for kind, nm, line in _structure(kern.body):
+            if kind == "static-nonconst":
+                res["violations"].append({"key": f"{name}:{kn}:static:{nm}", "what": f"non-const static {nm} (line {line}): state shared between calls/threads", "replay": None})
+            elif kind == "store-nonlocal":
+                res["violations"].append({"key": f"{name}:{kn}:write:{nm}", "what": f"kernel stores to {nm} (line {line}), which is neither A nor a local", "replay": None})
+        res["extra"]["structural_facts"] = res["extra"].get("structural_facts", 0) + 1
+        if spec.get("structure_only") or "big" in corpus.REG[name]["tags"]:
+            continue
         facet_cell = idesc.domain if itype in ("exterior_facet", "interior_facet") else None
         cfgs = entity_configs(itype, cellname, tier, facet_cell)
         nperm = NPERM.get(facet_cell, 1) if itype == "interior_facet" else 1
@@ -245,6 +284,16 @@ def _z3_int(e, env, cons, kctx):
                 v = z3.Int(f"{'e' if nm[0] == 'e' else 'p'}{sub[1]}")
                 kctx["intin"][key] = v
             return kctx["intin"][key]
+        from .kir import INT_TABLES
+
+        if nm in INT_TABLES:
+            # value read from a constant integer table: any entry (range over-approximation);
+            # the table access itself is a separate site with its own query
+            lo, hi = INT_TABLES[nm]
+            kctx["n"] = kctx.get("n", 0) + 1
+            v = z3.Int(f"t_{nm}_{kctx['n']}")
+            cons += [v >= lo, v <= hi]
+            return v
         raise KsymError(f"subscript reads array {nm}")
     if k == "bin":
         a, b = _z3_int(e[2], env, cons, kctx), _z3_int(e[3], env, cons, kctx)
@@ -364,7 +413,7 @@ def asan_run(c_text, kern, ext, ents, perms):
     kc.write_text(c_text)
     dc.write_text(drv)
     r = subprocess.run(["gcc", "-std=c17", "-g", "-O0", "-fsanitize=address,undefined", "-fno-sanitize-recover=all",
-                        "-I/repo/ffcx/codegeneration", str(kc), str(dc), "-o", str(exe), "-lm"], capture_output=True, text=True)
+                        "-I" + cfront.UFCX_DIR, str(kc), str(dc), "-o", str(exe), "-lm"], capture_output=True, text=True)
     if r.returncode:
         return None, "build failed: " + r.stderr[-800:]
     r = subprocess.run([str(exe)], capture_output=True, text=True, env={"ASAN_OPTIONS": "detect_leaks=0"})
